@@ -847,6 +847,42 @@ def _condensed_tables(model, rep):
                      f"interior one", (d or fn).lineno)
 
 
+def _missing_neighbour(model, rep):
+    """f2t marks the missing second neighbour of an exterior facet by -1.
+    FacetBasis takes the cells of its facets from f2t[side, find] and then
+    uses them as indices (invF, gbasis, element_dofs[:, tind]), where NumPy
+    reads -1 as 'the last cell': side=1 of an exterior facet integrates the
+    facet into the last cell of the mesh - matrix entries between DOFs that
+    share no integrated cell.  The sentinel must be tested before the cells
+    are used."""
+    R7 = "C04-R7"
+    fn = model.func("skfem.assembly.basis.facet_basis", "FacetBasis.__init__")
+    reads = [n for n in ast.walk(fn.node) if isinstance(n, ast.Assign)
+             and src(n.targets[0]) == "self.tind" and "f2t" in src(n.value)]
+    if not reads:
+        raise AnalysisError("FacetBasis.__init__: cells of the facets not "
+                            "taken from f2t")
+    tested = any(
+        isinstance(n, ast.If) and any(
+            isinstance(c, ast.Compare) and "self.tind" in src(c.left)
+            and isinstance(c.ops[0], (ast.Lt, ast.Eq, ast.LtE))
+            for c in ast.walk(n.test)) and any(
+            isinstance(x, (ast.Raise, ast.Assign)) for x in ast.walk(n))
+        for n in ast.walk(fn.node))
+    cons = "FacetBasis.__init__:missing-neighbour"
+    if tested:
+        rep.ok(R7, cons, "the -1 of f2t is tested before the cells are used "
+               "as indices")
+    else:
+        rep.fail(R7, fn.path, "FacetBasis.__init__", cons,
+                 "self.tind = f2t[side, find] is used as a cell index "
+                 "without a test for the sentinel -1: FacetBasis(m, e, "
+                 "side=1) on the boundary facets integrates every facet "
+                 "into the last cell of the mesh (nonzero entries only on "
+                 "the DOFs of a strictly interior cell), silently",
+                 reads[0].lineno)
+
+
 class _IntVec:
     """1-D integer vector with the few numpy operations _deduce_bfun uses:
     ``v == j`` (mask), ``v.copy()``, ``v[mask] = seq`` and ``v[i]``."""
@@ -1073,6 +1109,7 @@ def run(model: Model, rep, tier: str) -> None:
     rep.rule("C04-R7", "a basis numbers its DOFs with a Dofs object built "
              "for its own mesh and element, or the one supplied")
     _r7(model, rep)
+    _missing_neighbour(model, rep)
     rep.require_min("C04-R6", 10)
     rep.require_min("C04-R1", 10)
     rep.require_min("C04-R2", 40)
@@ -1093,6 +1130,9 @@ _FACET_BLK = """        if counts[2] > 0:
             ns += sum([tmp for j in range(int(counts[2] / len(tmp)))], [])
 """
 MUTANTS = [
+    ("facet basis uses the missing-neighbour sentinel as a cell index",
+     ("skfem/assembly/basis/facet_basis.py",
+      "        if (self.tind < 0).any():", "        if False:"), "C04-R7"),
     ("DG wrapper lists facet names before edge names again",
      ("skfem/element/element_dg.py",
       "            + elem.refdom.nedges * elem.dofnames[slice((elem.nodal_dofs"
